@@ -76,7 +76,7 @@ contract("new:Match", pos_params=["func", "arguments"], defaults={"arguments": N
          ensures={"fields": "result.func == func and result.arguments is arguments and exact_type(result, 'Match')"})
 contract("new:MatchWithError", pos_params=["func", "error"], fresh_result="MatchWithError",
          ensures={"fields": "result.func == func and result.stored_error == error"})
-contract(MT + "Matcher.match", props=P, params={"self": "ref:Matcher", "step_text": "str"},
+contract(MT + "Matcher.match", props=P + ["C02"], params={"self": "ref:Matcher", "step_text": "str"},
          raises=[Raises("NotImplementedError", when="cm_outcome(self, step_text) == 1")],
          ensures={
              "conversion-error-is-kept-for-the-step":
@@ -99,7 +99,7 @@ contract(MT + "Matcher.matches", props=P, params={"self": "ref:Matcher", "step_t
                  "and typeof_is(match_result(self, step_text), 'Match') "
                  "and not typeof_is(match_result(self, step_text), 'MatchWithError')))",
          })
-contract(MT + "MatchWithError.run", props=P, params={"self": "ref:MatchWithError", "context": "any"},
+contract(MT + "MatchWithError.run", props=P + ["C02"], params={"self": "ref:MatchWithError", "context": "any"},
          raises=[Raises("StepParseError", when="True")],
          doc="always raises StepParseError (the stored conversion error is reported by Step.run as an error)")
 
@@ -115,7 +115,7 @@ contract("user:step_function", trusted=True, pos_params=["context"], vararg="arg
 contract("ctx:user_mode.enter", trusted=True, pos_params=[], pure=True, doc="context.use_with_user_mode() enter")
 contract("ctx:user_mode.exit", trusted=True, pos_params=[], pure=True, doc="context.use_with_user_mode() exit")
 ARGS = "as_list(self.arguments, 'ref:Argument')"
-contract(MT + "Match.run", props=P, params={"self": "ref:Match", "context": "any"},
+contract(MT + "Match.run", props=P + ["C02"], params={"self": "ref:Match", "context": "any"},
          self_classes=["Match"],
          callsites={"self.func": "user:step_function"},
          with_items={"context.use_with_user_mode()": ("ctx:user_mode.enter", "ctx:user_mode.exit")},
